@@ -54,4 +54,26 @@ MUTANTS = [
     M("c13-refactor-two-appends", "C13", "refactor", [(CAL, "        self.hook_handles.append(\n            (\n                register_module_forward_pre_hook(self.calibrate_input),\n                register_module_forward_hook(self.calibrate_output),\n            )\n        )", "        self.hook_handles.append(register_module_forward_pre_hook(self.calibrate_input))\n        self.hook_handles.append(register_module_forward_hook(self.calibrate_output))"),
                                                       (CAL, "        for handle in self.hook_handles.pop():\n            handle.remove()", "        self.hook_handles.pop().remove()\n        self.hook_handles.pop().remove()")]),
     M("c13-refactor-local-entry", "C13", "refactor", [(CAL, "        for handle in self.hook_handles.pop():\n            handle.remove()", "        handles = self.hook_handles.pop()\n        for handle in handles:\n            handle.remove()")]),
+    # ---------------- C05.R17 (finding F33) and the per-axis operands of linear (finding F34)
+    M("c05-neg-raw-payload-again", "C05", "break", [(OPS, "    data = torch.clamp(input._data, min=-torch.iinfo(input._data.dtype).max)\n    out_data = op(data, *args, **kwargs)", "    out_data = op(input._data, *args, **kwargs)")], "C05.R17"),
+    M("c05-neg-clamp-wrong-bound", "C05", "break", [(OPS, "    data = torch.clamp(input._data, min=-torch.iinfo(input._data.dtype).max)", "    data = torch.clamp(input._data, min=torch.iinfo(input._data.dtype).min)")], "C05.R17"),
+    M("c05-refactor-neg-clamp-method", "C05", "refactor", [(OPS, "    data = torch.clamp(input._data, min=-torch.iinfo(input._data.dtype).max)", "    data = input._data.clamp(min=-127)")]),
+    M("c05-linear-weight-guard-dropped", "C05", "break", [("optimum/quanto/tensor/qtensor_func.py", "    if isinstance(other, QBytesTensor) and other.axis is not None and (other.ndim != 2 or other.axis != 0):\n        other = other.dequantize()\n", "")], "C05.R14"),
+    M("c07-linear-weight-guard-dropped", "C07", "break", [("optimum/quanto/tensor/qtensor_func.py", "    if isinstance(other, QBytesTensor) and other.axis is not None and (other.ndim != 2 or other.axis != 0):\n        other = other.dequantize()\n", "")], "C07.R1"),
+    M("c05-linear-input-guard-dropped", "C05", "break", [("optimum/quanto/tensor/qtensor_func.py", "    if isinstance(input, QBytesTensor) and input.axis is not None:\n        input = input.dequantize()\n", "")], "C05.R14"),
+    M("c05-linear-weight-guard-wrong-axis", "C05", "break", [("optimum/quanto/tensor/qtensor_func.py", "(other.ndim != 2 or other.axis != 0)", "(other.ndim != 2 or other.axis == 0)")], "C05.R14"),
+    M("c05-refactor-linear-guards-merged", "C05", "refactor", [("optimum/quanto/tensor/qtensor_func.py", "    if isinstance(other, QBytesTensor) and other.axis is not None and (other.ndim != 2 or other.axis != 0):\n        other = other.dequantize()\n", "    if isinstance(other, QBytesTensor) and not (other.axis is None or (other.ndim == 2 and other.axis == 0)):\n        other = other.dequantize()\n")]),
+    M("c11-refactor-linear-guards-merged", "C11", "refactor", [("optimum/quanto/tensor/qtensor_func.py", "    if isinstance(other, QBytesTensor) and other.axis is not None and (other.ndim != 2 or other.axis != 0):\n        other = other.dequantize()\n", "    if isinstance(other, QBytesTensor) and not (other.axis is None or (other.ndim == 2 and other.axis == 0)):\n        other = other.dequantize()\n")]),
+    # ---------------- stride hazards (F35) and scale products (F36)
+    M("c07-intmm-no-contiguous-again", "C07", "break", [("optimum/quanto/library/qbytes_mm.py", "    # torch._int_mm reads its first operand as a dense matrix: materialize expanded (stride 0) activations\n    activations = activations.contiguous()\n", "")], "C07.R5"),
+    M("c07-int8pack-no-contiguous-again", "C07", "break", [("optimum/quanto/library/qbytes_mm.py", "    # and activations that are contiguous on their last dimension\n    activations = activations.contiguous()\n", "")], "C07.R5"),
+    M("c07-mm-handler-no-contiguous-again", "C07", "break", [(OPS, "torch._int_mm(input._data.contiguous(), other._data.contiguous())", "torch._int_mm(input._data.contiguous(), other._data)")], "C07.R5"),
+    M("c05-mm-handler-no-contiguous-again", "C05", "break", [(OPS, "torch._int_mm(input._data.contiguous(), other._data.contiguous())", "torch._int_mm(input._data, other._data.contiguous())")], "C05.R14"),
+    M("c07-refactor-contiguous-after-reshape", "C07", "refactor", [("optimum/quanto/library/qbytes_mm.py", "    # torch._int_mm reads its first operand as a dense matrix: materialize expanded (stride 0) activations\n    activations = activations.contiguous()\n", ""),
+                                                                   ("optimum/quanto/library/qbytes_mm.py", "        out_data = torch._int_mm(activations, weights)\n", "        out_data = torch._int_mm(activations.contiguous(), weights)\n"),
+                                                                   ("optimum/quanto/library/qbytes_mm.py", "        out_data = torch._int_mm(activations.reshape(-1, in_features), weights)\n", "        out_data = torch._int_mm(activations.reshape(-1, in_features).contiguous(), weights)\n")]),
+    M("c07-linear-scale-product-fp16-again", "C07", "break", [("optimum/quanto/tensor/qtensor_func.py", "output_scales = input._scale.to(torch.float32) * other._scale.to(torch.float32)", "output_scales = input._scale * other._scale")], "C07.R10"),
+    M("c07-bmm-scale-product-late-cast", "C07", "break", [(OPS, "    out_scale = input._scale.to(torch.float32) * other._scale.to(torch.float32)", "    out_scale = (input._scale * other._scale).to(torch.float32)")], "C07.R10"),
+    M("c07-mm-one-factor-cast", "C07", "break", [(OPS, "fp32_output = input._scale.to(torch.float32) * other._scale.to(torch.float32) * out_data", "fp32_output = input._scale.to(torch.float32) * other._scale * out_data")], "C07.R10"),
+    M("c07-refactor-scale-product-float", "C07", "refactor", [(OPS, "    out_scale = input._scale.to(torch.float32) * other._scale.to(torch.float32)", "    out_scale = torch.mul(input._scale.float(), other._scale.float())")]),
 ]
